@@ -608,13 +608,13 @@ func (vc *VC) cellKey(t types.Type) (string, string) {
 func (vc *VC) afld(structT types.Type, i int, ref Term) Term {
 	key, _ := vc.fieldKey(structT, i)
 	fn := "afld_" + sanitize(key[2:])
-	vc.decl("fun:"+fn, fmt.Sprintf("(declare-fun %s (Int) Int)\n(declare-fun %s_inv (Int) Int)\n(assert (forall ((x Int)) (! (and (= (%s_inv (%s x)) x) (not (= (%s x) 0)) (= (ref.kind (%s x)) %d)) :pattern ((%s x)))))",
-		fn, fn, fn, fn, fn, fn, vc.kindID(fn), fn))
+	vc.decl("fun:"+fn, fmt.Sprintf("(declare-fun %s (Int) Int)\n(declare-fun %s_inv (Int) Int)\n(assert (forall ((x Int)) (! (and (= (%s_inv (%s x)) x) (not (= (%s x) 0)) (= (ref.kind (%s x)) %d) (not (ref.iptr (%s x)))) :pattern ((%s x)))))",
+		fn, fn, fn, fn, fn, fn, vc.kindID(fn), fn, fn))
 	return app(SInt, fn, ref)
 }
 
 func (vc *VC) kindID(name string) int {
-	vc.decl("fun:ref.kind", "(declare-fun ref.kind (Int) Int)")
+	vc.decl("fun:ref.kind", "(declare-fun ref.kind (Int) Int)\n(declare-fun ref.iptr (Int) Bool)")
 	k := "kind:" + name
 	if id, ok := vc.tids[k]; ok {
 		return id
@@ -630,8 +630,10 @@ func (vc *VC) locRef(l *Loc) (Term, error) {
 	switch l.Kind {
 	case LField:
 		fn := "fld_" + sanitize(l.Key[2:])
-		vc.decl("fun:"+fn, fmt.Sprintf("(declare-fun %s (Int) Int)\n(declare-fun %s_inv (Int) Int)\n(assert (forall ((x Int)) (! (and (= (%s_inv (%s x)) x) (not (= (%s x) 0)) (= (ref.kind (%s x)) %d)) :pattern ((%s x)))))",
-			fn, fn, fn, fn, fn, fn, vc.kindID(fn), fn))
+		// injective, non-nil, of a kind of its own (never an object the function allocates, never an
+		// embedded array) and marked ref.iptr, which the well-formedness of pointer values admits
+		vc.decl("fun:"+fn, fmt.Sprintf("(declare-fun %s (Int) Int)\n(declare-fun %s_inv (Int) Int)\n(assert (forall ((x Int)) (! (and (= (%s_inv (%s x)) x) (> (%s x) 0) (= (ref.kind (%s x)) %d) (ref.iptr (%s x))) :pattern ((%s x)))))",
+			fn, fn, fn, fn, fn, fn, vc.kindID(fn), fn, fn))
 		t = app(SInt, fn, l.Ref)
 	case LHeapCell:
 		t = l.Ref
@@ -643,8 +645,8 @@ func (vc *VC) locRef(l *Loc) (Term, error) {
 			return Term{}, unsupported("reference term for a pointer into an array value")
 		}
 		fn := "pth_" + sanitize(typeKey(pe.From)) + "_" + pe.Name
-		vc.decl("fun:"+fn, fmt.Sprintf("(declare-fun %s (Int) Int)\n(declare-fun %s_inv (Int) Int)\n(assert (forall ((x Int)) (! (and (= (%s_inv (%s x)) x) (not (= (%s x) 0)) (= (ref.kind (%s x)) %d)) :pattern ((%s x)))))",
-			fn, fn, fn, fn, fn, fn, vc.kindID(fn), fn))
+		vc.decl("fun:"+fn, fmt.Sprintf("(declare-fun %s (Int) Int)\n(declare-fun %s_inv (Int) Int)\n(assert (forall ((x Int)) (! (and (= (%s_inv (%s x)) x) (> (%s x) 0) (= (ref.kind (%s x)) %d) (ref.iptr (%s x))) :pattern ((%s x)))))",
+			fn, fn, fn, fn, fn, fn, vc.kindID(fn), fn, fn))
 		t = app(SInt, fn, t)
 	}
 	return t, nil
@@ -790,17 +792,22 @@ func (vc *VC) storeLoc(st *State, l *Loc, v Val) error {
 // non-nil). What is reached through it is NOT related to the value of x.f as the embedding object
 // sees it (recorded as an assumption).
 func (vc *VC) absPtr(l *Loc) (Term, bool) {
-	if l == nil || l.Kind != LField || len(l.Path) != 0 || l.Frozen != nil {
+	if l == nil || l.Kind != LField || l.Frozen != nil {
 		return Term{}, false
 	}
-	fn := "iptr_" + sanitize(l.Key[2:])
-	vc.decl("fun:ref.kind", "(declare-fun ref.kind (Int) Int)")
-	vc.decl("fun:"+fn, fmt.Sprintf("(declare-fun %s (Int) Int)\n(declare-fun %s_inv (Int) Int)\n(assert (forall ((x Int)) (! (and (= (%s_inv (%s x)) x) (> (%s x) 0) (= (ref.kind (%s x)) %d)) :pattern ((%s x)))))",
-		fn, fn, fn, fn, fn, fn, vc.kindID(fn), fn))
+	for _, pe := range l.Path {
+		if pe.Idx != nil {
+			return Term{}, false
+		}
+	}
+	t, err := vc.locRef(l)
+	if err != nil {
+		return Term{}, false
+	}
 	if vc.dry == 0 {
 		vc.trusted["pointer to the embedded struct field "+l.Key[2:]+" is handed out as an abstract reference; accesses through it are not related to the embedding object's view of that field"] = true
 	}
-	return app(SInt, fn, l.Ref), true
+	return t, true
 }
 
 // pathField: the top-level struct field a path starts with, or -1 (whole value).
@@ -887,7 +894,7 @@ func (vc *VC) allocRef(st *State, hint string) Term {
 	r := vc.freshConst(hint, SInt)
 	as := arraySort(SInt, SBool)
 	al := vc.heapGet(st, "$alloc", as)
-	vc.decl("fun:ref.kind", "(declare-fun ref.kind (Int) Int)")
+	vc.decl("fun:ref.kind", "(declare-fun ref.kind (Int) Int)\n(declare-fun ref.iptr (Int) Bool)")
 	vc.assert(And(Not(Eq(r, intLit64(0))), Not(Select(al, r)), Eq(app(SInt, "ref.kind", r), intLit64(0)), app(SBool, ">", r, intLit64(0))))
 	vc.setHeap(st, "$alloc", vc.bind("alloc", Store(al, r, TTrue)), -1)
 	return r
@@ -909,11 +916,11 @@ func (vc *VC) wf(st *State, v Term, t types.Type, depth int) Term {
 			return vc.ar.Cmp(">=", app(vc.ar.IdxSort(), "gs.len", v), vc.idx(0), kInt)
 		}
 	case *types.Pointer, *types.Map, *types.Chan:
-		vc.decl("fun:ref.kind", "(declare-fun ref.kind (Int) Int)")
+		vc.decl("fun:ref.kind", "(declare-fun ref.kind (Int) Int)\n(declare-fun ref.iptr (Int) Bool)")
 		c := []Term{Or(Eq(v, intLit64(0)), vc.isAlloc(st, v)), app(SBool, ">=", v, intLit64(0))}
 		if p, ok := u.(*types.Pointer); ok {
 			if _, isArr := p.Elem().Underlying().(*types.Array); !isArr {
-				c = append(c, Eq(app(SInt, "ref.kind", v), intLit64(0)))
+				c = append(c, Or(Eq(app(SInt, "ref.kind", v), intLit64(0)), app(SBool, "ref.iptr", v)))
 			}
 		}
 		return And(c...)
